@@ -97,6 +97,14 @@ def run_job(job, stdout):
     if job.get("setup"):
         exec(job["setup"], ns)
     out = {"failed": [], "detail": {}}
+    import copy
+
+    olds = {}
+    for k, v in args.items():
+        try:
+            olds[k] = copy.deepcopy(v)
+        except Exception:  # noqa
+            olds[k] = v
     try:
         result = eval(job["call"], ns)
         outcome = "return"
@@ -138,8 +146,13 @@ def run_job(job, stdout):
             out["detail"][cl["id"]] = "clause evaluation error: " + repr(e)
         if ok is False:
             out["failed"].append(cl["id"])
-    # raises table: raise E => cond ; return => no cond
+    # raises table: raise E => cond ; return => no cond   (conditions speak about the entry state)
     rs = job.get("raises")
+    post_env = env
+    env = dict(env)
+    for k, v in olds.items():
+        env[k] = NSP.wrap(v) if not hasattr(v, "__dict__") else v
+        post_env["old_" + k] = env[k]
     if rs is not None:
         if outcome == "return":
             for exc, cond in rs:
